@@ -145,6 +145,9 @@ var lengths = []time.Duration{0, 1, 500 * time.Millisecond, time.Second, 2 * tim
 // genSegs draws 0-6 segments; only the last may be infinite (the documented precondition).
 func genSegs(t *rapid.T, label string) []*seg {
 	n := rapid.IntRange(0, 6).Draw(t, label+"n")
+	if rapid.IntRange(0, 11).Draw(t, label+"long") == 0 {
+		n = rapid.IntRange(7, 120).Draw(t, label+"nlong") // schedules of a day in quarter hours are this long
+	}
 	out := make([]*seg, 0, n)
 	for i := 0; i < n; i++ {
 		s := &seg{Magnitude: float32(rapid.IntRange(0, 5).Draw(t, label+"mag"))}
